@@ -149,9 +149,13 @@ class ReloadDaemon:
         self.logpos = 0
         self.marks = 0
 
-    def conf(self, svcs, rules=None, broken=False):
-        return D.conf_text(self.build.moddir, svcs, timeout="1h", modules=self.modules, rules=rules, logs=LOGS) \
-            + (BAD_TAIL if broken else "")
+    def conf(self, svcs, rules=None, broken=False, omit_empty=False):
+        """Text of a configuration file.  omit_empty: an empty section is left out of the file altogether (the
+        documented meaning is the same: no entries)."""
+        text = D.conf_text(self.build.moddir, svcs, timeout="1h", modules=self.modules, rules=rules, logs=LOGS)
+        if omit_empty:
+            text = text.replace("iauth_xquery {\n}\n", "").replace("iauth_class {\n}\n", "")
+        return text + (BAD_TAIL if broken else "")
 
     def _scan_log(self):
         try:
@@ -230,7 +234,7 @@ def svc_job_of_history(h):
     old = h[0]["e"]["svcs"]
     events = [{"ev": x["e"], "w": x["w"], "n": x["n"]} for x in h[1:]]
     files = [old] + [x["ev"]["svcs"] for x in events if x["ev"]["e"] == "RL"]
-    return {"old": old, "events": events, "files": files, "sanity": False}
+    return {"old": old, "events": events, "files": files, "sanity": False, "omit_empty": False}
 
 
 def svc_names(jobs):
@@ -282,10 +286,11 @@ def run_svc_job(bld, workdir, job, names):
         if e["e"] in ("RL", "RLF"):
             t0 = time.time()
             if e["e"] == "RL":
-                st, lines, n = rd.reload(rd.conf(e["svcs"]))
+                st, lines, n = rd.reload(rd.conf(e["svcs"], omit_empty=bool(job.get("omit_empty"))))
                 cur = e["svcs"]
             else:
-                st, lines, n = rd.reload(rd.conf(cur, broken=True))
+                # a file that must be rejected as a whole: no services at all, then a syntax error
+                st, lines, n = rd.reload(rd.conf([], broken=True))
             info["handshake_s"] += time.time() - t0
             info["reloads"] += 1
             out = [d.parse_line(l) for l in lines]
@@ -567,7 +572,7 @@ def run_cls_job(bld, workdir, job):
     for t in (1, 2):
         if crashed:
             break
-        st, lines, n = rd.reload(rd.conf(svcs, rules=CR.render_rules(chain[t])))
+        st, lines, n = rd.reload(rd.conf(svcs, rules=CR.render_rules(chain[t]), omit_empty=bool(job.get("omit_empty"))))
         info["reloads"] += 1
         if st == "crash":
             crashed = True
